@@ -32,10 +32,12 @@ try:
     suite = [sh(NS % "go test -vet=off -count=1 ./... 2>&1", cwd=wt).stdout.strip().splitlines()[-1] for _ in range(2)]
     mut_ok, mut_out = demo_run()
     flagged = {}
-    for p in "C01 C02 C03 C04 C05 C06 C07 C08 C09 C10 C11 C13 C14 C15 C16 C17 C18 C19 C20".split():
-        out = sh(f"/verif/bin/specvet -property {p} -repo {wt} -no-evidence").stdout
-        keys = [l.split()[1] for l in out.splitlines() if l.startswith(("VIOLATED ", "UNDECIDED "))]
-        if keys: flagged[p] = keys[:4]
+    out = sh(f"/verif/bin/specvet -all -repo {wt}").stdout
+    for l in out.splitlines():
+        parts = l.split()
+        if len(parts) >= 3 and parts[1] in ("VIOLATED", "UNDECIDED"):
+            flagged.setdefault(parts[0], [])
+            if len(flagged[parts[0]]) < 4: flagged[parts[0]].append(parts[2])
     ok = clean_ok and not mut_ok and all(s.startswith("ok") for s in suite)
     print(sid, "confirmed" if ok else "NOT CONFIRMED", "| demo clean:", clean_ok, "| demo mutant fails:", not mut_ok, "| suite:", suite, "| flagged by:", sorted(flagged))
     if ok:
